@@ -453,7 +453,9 @@ def connect_op(rng, c, k, invalid):
     right = rng.random() < 0.5
     if k == 'extend':
         tc = oc = None
-        if rng.random() < 0.4:
+        if rng.random() < 0.2:
+            tc, oc = [], []          # explicit empty connector lists: side-by-side composition
+        elif rng.random() < 0.4:
             tc = ([rng.choice(labels) for _ in range(len(other['inputs']))] if not right
                   else rng.sample(list(c._inputs), min(len(c._inputs), len(other['outputs'])))) if labels else []
         return ('extend', other, tc, oc, right, name, ap)
